@@ -89,6 +89,16 @@ br_rsa_i15_private(unsigned char *x, const br_rsa_private_key *sk)
 	 * Ensure 32-bit alignment for value words.
 	 */
 	mq = tmp;
+#if defined(BEARSSL_ESP8266_VERIF) && defined(BR_VERIF_RSA_I15_ALIGN)
+	/*
+	 * Verification hook: the harness fixes the alignment case
+	 * (1: tmp is 4-byte aligned, 0: it is not) so that a symbolic
+	 * checker does not have to carry a symbolic work-area offset.
+	 */
+	if (BR_VERIF_RSA_I15_ALIGN) {
+		mq ++;
+	} else if (0)
+#endif
 	if (((uintptr_t)mq & 2) == 0) {
 		mq ++;
 	}
